@@ -142,7 +142,7 @@ func (viso *VirtualISO) init() error {
 }
 
 func (viso *VirtualISO) getTitleID() (string, error) {
-	f, err := viso.fs.Open(filepath.Join(viso.root, paramSFOPath))
+	f, err := openForRead(viso.fs, filepath.Join(viso.root, paramSFOPath))
 	if err != nil {
 		return "", fmt.Errorf("param.sfo open failed: %w", err)
 	}
